@@ -46,6 +46,13 @@ def run(chk):
             opts["relativize"] = False
         if rng.random() < 0.4:
             opts["fit_to_screen"] = False
+        if i % 5 == 4:
+            # fit-to-screen on percentage layouts (overflowing or missing extents), relativization on and off
+            writer = "webvtt"; level = rng.choice(["language", "caption", "node"])
+            L = {"origin": ["%d%%" % rng.choice([0, 10, 35, 60, 85]), "%d%%" % rng.choice([0, 25, 70])]}
+            if rng.random() < 0.6:
+                L["extent"] = ["%d%%" % rng.choice([20, 50, 80, 100]), "%d%%" % rng.choice([10, 50, 80])]
+            opts = {"relativize": rng.random() < 0.5}
         node = ["T", "hello", L] if level == "node" else ["T", "hello"]
         nodes = [["S", True, {"italics": True}] + ([L] if level == "node" else []), node, ["S", False, {"italics": True}] + ([L] if level == "node" else [])]
         desc = {"langs": [{"lang": "en-US", "layout": L if level == "language" else None,
@@ -96,6 +103,18 @@ def run(chk):
             vals = [v for l in doc.split("\n") if "-->" in l for v in re.findall(r"(?:position|line|size):(\S+)", l)]
         lens = lengths_in(vals)
         case["written"] = vals
+        if writer == "webvtt" and opts.get("fit_to_screen", True) and not absolute and doc is not None:
+            # fit-to-screen on a percentage layout: right edge <= 90 whatever `relativize` says
+            line = [l for l in doc.split("\n") if "-->" in l][0]
+            m1 = re.search(r"position:(-?[0-9.]+)%", line); m2 = re.search(r"size:(-?[0-9.]+)%", line)
+            x0 = Fraction(L["origin"][0][:-1]); pad = [Fraction(t[:-1]) for t in L["padding"]] if L.get("padding") else [0, 0, 0, 0]
+            if 0 <= x0 <= 90:
+                if not m2:
+                    chk.property_failure(case, "webvtt with fit_to_screen: no size written for a layout with an origin (missing extent must reach the 90% edge)")
+                else:
+                    right = Fraction(m1.group(1)) - pad[2] + Fraction(m2.group(1)) + pad[2] + pad[3] if m1 else None
+                    if right is not None and right > Fraction(9001, 100):
+                        chk.property_failure(dict(case, right_edge=float(right)), "webvtt with fit_to_screen: the cue's right edge exceeds 90%")
         if writer == "webvtt" and any(u != "%" for _, u in lens):
             chk.property_failure(case, "webvtt output contains a non-percentage length")
         elif relativize and any(u != "%" for _, u in lens):
